@@ -143,6 +143,336 @@ def generate(repo: Path, outdir: Path) -> None:
     p = outdir / "C12Lib.lean"
     if not p.exists() or p.read_text() != text:
         p.write_text(text)
+    generate_glue(repo, outdir)
+
+
+# --------------------------------------------------------------------------- the use_jacobian glue
+
+def _norm(node: ast.AST, ren: dict[str, str] | None = None) -> str:
+    """source text with `self.model` -> `model` and the given local names replaced"""
+    ren = ren or {}
+
+    class N(ast.NodeTransformer):
+        def visit_Attribute(self, n):
+            n = self.generic_visit(n)
+            if isinstance(n.value, ast.Name) and n.value.id == "self" and n.attr == "model":
+                return ast.Name(id="model", ctx=ast.Load())
+            return n
+
+        def visit_Name(self, n):
+            return ast.Name(id=ren.get(n.id, n.id), ctx=n.ctx)
+
+    import copy
+
+    return ast.unparse(N().visit(copy.deepcopy(node)))
+
+
+def _is_self_attr(n: ast.AST, attr: str) -> bool:
+    return isinstance(n, ast.Attribute) and isinstance(n.value, ast.Name) and n.value.id == "self" and n.attr == attr
+
+
+def _strip_doc(body):
+    body = list(body)
+    if body and isinstance(body[0], ast.Expr) and isinstance(getattr(body[0], "value", None), ast.Constant) \
+            and isinstance(body[0].value.value, str):
+        body = body[1:]
+    return body
+
+
+def glue(repo: Path) -> dict:
+    """facts about `Simulator._initialise_integrator` and the methods around it, read structurally (local names
+    are free); anything outside the recognised shape raises `Unsupported`"""
+    tree = ast.parse((Path(repo) / "src" / "mxlpy" / "simulator.py").read_text())
+    cls = next((n for n in tree.body if isinstance(n, ast.ClassDef) and n.name == "Simulator"), None)
+    if cls is None:
+        raise Unsupported("class Simulator not found")
+    methods = {n.name: n for n in cls.body if isinstance(n, ast.FunctionDef)}
+    init = methods.get("_initialise_integrator")
+    if init is None:
+        raise Unsupported("Simulator._initialise_integrator not found")
+    # --- the integrator construction: third positional argument is the closure
+    jac_name = None
+    for st in init.body:
+        if isinstance(st, ast.Assign) and len(st.targets) == 1 and _is_self_attr(st.targets[0], "integrator") \
+                and isinstance(st.value, ast.Call) and _is_self_attr(st.value.func, "_integrator_type"):
+            a = st.value.args
+            if len(a) == 3 and isinstance(a[2], ast.Name) and not st.value.keywords:
+                jac_name = a[2].id
+            elif len(a) == 2 and [k.arg for k in st.value.keywords] == ["jacobian"] and isinstance(st.value.keywords[0].value, ast.Name):
+                jac_name = st.value.keywords[0].value.id
+    gets_jac = jac_name is not None
+    if jac_name is None:
+        raise Unsupported("the integrator is not constructed as self._integrator_type(model, y0, <name>)")
+    # --- `jac = None` first, then `if self.use_jacobian: try: ...`
+    top = _strip_doc(init.body)
+    if not (top and isinstance(top[0], ast.Assign) and len(top[0].targets) == 1 and isinstance(top[0].targets[0], ast.Name)
+            and top[0].targets[0].id == jac_name and isinstance(top[0].value, ast.Constant) and top[0].value.value is None):
+        raise Unsupported(f"_initialise_integrator does not start with `{jac_name} = None`")
+    guarded = [st for st in top[1:] if isinstance(st, ast.If) and _is_self_attr(st.test, "use_jacobian") and not st.orelse]
+    others = [st for st in top[1:] if st not in guarded]
+    for st in others:
+        for n in ast.walk(st):
+            if (isinstance(n, (ast.FunctionDef, ast.Lambda)) or
+                    (isinstance(n, ast.Name) and n.id == jac_name and isinstance(n.ctx, ast.Store))):
+                raise Unsupported("the closure is (also) built outside `if self.use_jacobian:`")
+    if len(guarded) != 1 or len(guarded[0].body) != 1 or not isinstance(guarded[0].body[0], ast.Try):
+        raise Unsupported("expected exactly one `if self.use_jacobian: try: ... except ...`")
+    tr: ast.Try = guarded[0].body[0]
+    if tr.orelse or tr.finalbody or len(tr.handlers) != 1:
+        raise Unsupported("try statement with else / finally / several handlers")
+    # --- inside the try: compile function, remembered pair, closure
+    compile_fn = store = closure = None
+    for st in tr.body:
+        if isinstance(st, ast.FunctionDef) and st.name == jac_name:
+            closure = st
+        elif isinstance(st, ast.FunctionDef) and not st.args.args:
+            compile_fn = st
+        elif isinstance(st, ast.Assign) and isinstance(st.value, ast.Dict):
+            store = st
+        else:
+            raise Unsupported(f"statement in the try body: {ast.unparse(st)[:60]}")
+    if compile_fn is None or store is None or closure is None:
+        raise Unsupported("compile function / remembered pair / closure not all found inside the try")
+    cb = _strip_doc(compile_fn.body)
+    if not (len(cb) == 1 and isinstance(cb[0], ast.Return) and isinstance(cb[0].value, ast.Call)
+            and ast.unparse(cb[0].value.func) in ("lambdify", "sympy.lambdify") and len(cb[0].value.args) == 2
+            and not cb[0].value.keywords and isinstance(cb[0].value.args[0], ast.Tuple)):
+        raise Unsupported("compile function is not `return lambdify((...), matrix)`")
+    lam_args = [_norm(e) for e in cb[0].value.args[0].elts]
+    matrix = _norm(cb[0].value.args[1])
+    if not (len(store.targets) == 1 and isinstance(store.targets[0], ast.Name) and len(store.value.keys) in (2, 3)
+            and all(isinstance(k, ast.Constant) and isinstance(k.value, str) for k in store.value.keys)):
+        raise Unsupported("remembered state is not a dict with two or three string keys")
+    sname = store.targets[0].id
+    # the model's cache OBJECT (`Model._cache`: discarded by every edit, re-created lazily by the getters; the conversion
+    # itself re-creates it, so it has to be read AFTER compiling).  `model._create_cache()` is not it: it builds a new
+    # object on every call
+    CACHE = "model._cache"
+    fn_key = val_key = cache_key = compiled_from = None
+    fn_pos = cache_pos = None
+    for pos, (k, v) in enumerate(zip(store.value.keys, store.value.values)):
+        if isinstance(v, ast.Call) and isinstance(v.func, ast.Name) and v.func.id == compile_fn.name and not v.args:
+            fn_key, fn_pos = k.value, pos
+        elif _norm(v) == CACHE:
+            cache_key, cache_pos = k.value, pos
+        elif _norm(v) == "model._create_cache()":
+            raise Unsupported("the remembered cache object is a fresh `_create_cache()` (never the model's own)")
+        elif val_key is None:
+            val_key, compiled_from = k.value, _norm(v)
+        else:
+            raise Unsupported(f"remembered state: unrecognised entry {k.value!r}: {_norm(v)}")
+    if fn_key is None or val_key is None:
+        raise Unsupported("remembered state does not hold the compiled function and the values")
+
+    def is_slot(n, key):
+        return (key is not None and isinstance(n, ast.Subscript) and isinstance(n.value, ast.Name) and n.value.id == sname
+                and isinstance(n.slice, ast.Constant) and n.slice.value == key)
+
+    # --- the closure
+    if len(closure.args.args) != 2 or closure.args.vararg or closure.args.kwarg or closure.args.kwonlyargs:
+        raise Unsupported("the closure does not take (t, x)")
+    tn, xn = [a.arg for a in closure.args.args]
+    body = _strip_doc(closure.body)
+    # leading `local = <expr>`: the current values, and (optionally) the model's current cache object
+    vn = cn = values_from = None
+    while body and isinstance(body[0], ast.Assign) and len(body[0].targets) == 1 and isinstance(body[0].targets[0], ast.Name):
+        src_ = _norm(body[0].value)
+        if src_ in (CACHE, "model._create_cache()") and cn is None:
+            cn = body[0].targets[0].id
+            if src_ != CACHE:
+                raise Unsupported("the closure compares a fresh `_create_cache()` object")
+        elif vn is None:
+            vn, values_from = body[0].targets[0].id, src_
+        else:
+            raise Unsupported(f"the closure reads something else first: {ast.unparse(body[0])[:60]}")
+        body = body[1:]
+    if vn is None:
+        raise Unsupported("the closure does not start by reading the current values into a local")
+    rest = body
+    recompile = stores = watches = stores_cache = False
+    compile_first = True
+    cache_read_after = True
+    if len(rest) == 2 and isinstance(rest[0], ast.If):
+        iff: ast.If = rest[0]
+        if iff.orelse:
+            raise Unsupported("recompile branch with an else")
+        tests = iff.test.values if isinstance(iff.test, ast.BoolOp) and isinstance(iff.test.op, ast.Or) else [iff.test]
+        val_test = cache_test = False
+        for t_ in tests:
+            if not (isinstance(t_, ast.Compare) and len(t_.ops) == 1):
+                raise Unsupported(f"recompile condition: {ast.unparse(iff.test)}")
+            l_, r_ = t_.left, t_.comparators[0]
+            if isinstance(r_, ast.Name):
+                l_, r_ = r_, l_
+            if isinstance(t_.ops[0], ast.NotEq) and isinstance(l_, ast.Name) and l_.id == vn and is_slot(r_, val_key):
+                val_test = True
+            elif (isinstance(t_.ops[0], ast.IsNot) and isinstance(l_, ast.Name) and cn is not None and l_.id == cn
+                  and is_slot(r_, cache_key)):
+                cache_test = True
+            elif isinstance(t_.ops[0], ast.IsNot) and (
+                    (_norm(t_.left) == CACHE and is_slot(t_.comparators[0], cache_key))
+                    or (_norm(t_.comparators[0]) == CACHE and is_slot(t_.left, cache_key))):
+                cache_test = True
+            else:
+                raise Unsupported(f"recompile condition: {ast.unparse(t_)}")
+        fn_again = False
+        for pos, st in enumerate(iff.body):
+            if isinstance(st, ast.Assign) and len(st.targets) == 1 and is_slot(st.targets[0], fn_key) \
+                    and isinstance(st.value, ast.Call) and isinstance(st.value.func, ast.Name) \
+                    and st.value.func.id == compile_fn.name and not st.value.args:
+                fn_again = True
+                # exception safety: what the closure remembers is replaced only after the compilation has succeeded
+                compile_first = pos == 0
+            elif isinstance(st, ast.Assign) and len(st.targets) == 1 and is_slot(st.targets[0], val_key) \
+                    and isinstance(st.value, ast.Name) and st.value.id == vn:
+                stores = True
+            elif isinstance(st, ast.Assign) and len(st.targets) == 1 and is_slot(st.targets[0], cache_key) \
+                    and ((isinstance(st.value, ast.Name) and st.value.id == cn) or _norm(st.value) == CACHE):
+                stores_cache = True
+                # a local read at the top of the closure, or a read placed before the compilation, is the object from
+                # BEFORE compiling (the conversion replaces it)
+                cache_read_after = _norm(st.value) == CACHE and fn_again
+            else:
+                raise Unsupported(f"statement in the recompile branch: {ast.unparse(st)[:60]}")
+        recompile = fn_again and val_test
+        watches = fn_again and cache_test
+        rest = rest[1:]
+    if not (len(rest) == 1 and isinstance(rest[0], ast.Return) and isinstance(rest[0].value, ast.Call)
+            and is_slot(rest[0].value.func, fn_key) and not rest[0].value.keywords):
+        raise Unsupported("the closure does not end with `return <compiled>(...)`")
+
+    def call_arg(a):
+        if isinstance(a, ast.Name) and a.id == tn:
+            return "t"
+        if isinstance(a, ast.Name) and a.id == xn:
+            return "x"
+
+        class R(ast.NodeTransformer):
+            def visit_Subscript(self, n):
+                if is_slot(n, val_key):
+                    return ast.Name(id="compiled", ctx=ast.Load())
+                return self.generic_visit(n)
+
+        import copy
+
+        return _norm(R().visit(copy.deepcopy(a)), {vn: "current"})
+
+    call_args = [call_arg(a) for a in rest[0].value.args]
+    # --- the handler
+    h = tr.handlers[0]
+    catches_all = h.type is None or (isinstance(h.type, ast.Name) and h.type.id in ("Exception", "BaseException"))
+    fb_none = any(isinstance(st, ast.Assign) and len(st.targets) == 1 and isinstance(st.targets[0], ast.Name)
+                  and st.targets[0].id == jac_name and isinstance(st.value, ast.Constant) and st.value.value is None
+                  for st in h.body)
+    sets_other = any(isinstance(n, ast.Name) and n.id == jac_name and isinstance(n.ctx, ast.Store) for st in h.body
+                     for n in ast.walk(st)) and not fb_none
+    if sets_other:
+        raise Unsupported("the handler binds the closure to something else than None")
+    if any(isinstance(n, ast.Raise) for st in h.body for n in ast.walk(st)):
+        catches_all = False
+    # without a rebinding in the handler the name is still None only if nothing can raise after the closure's `def`
+    fb_none = fb_none or tr.body[-1] is closure
+    warns = any(isinstance(n, ast.Call) and isinstance(n.func, ast.Attribute) and n.func.attr in ("warning", "warn")
+                for st in h.body for n in ast.walk(st))
+    # --- who re-initialises, who only forwards parameter updates
+    reinit, parsites = [], []
+    for name, m in methods.items():
+        if name == "_initialise_integrator":
+            continue
+        if any(isinstance(n, ast.Call) and _is_self_attr(n.func, "_initialise_integrator") for n in ast.walk(m)):
+            reinit.append(name)
+        b = _strip_doc(m.body)
+        if (len(b) == 2 and isinstance(b[0], ast.Expr) and isinstance(b[0].value, ast.Call)
+                and isinstance(b[0].value.func, ast.Attribute) and _is_self_attr(b[0].value.func.value, "model")
+                and "parameter" in b[0].value.func.attr and isinstance(b[1], ast.Return)
+                and isinstance(b[1].value, ast.Name) and b[1].value.id == "self"):
+            parsites.append(name)
+    return {
+        "lambdifyArgs": lam_args, "callArgs": call_args, "valuesFrom": values_from, "compiledFrom": compiled_from,
+        "matrix": matrix, "recompileOnChange": recompile, "storesValues": stores,
+        "watchesModel": watches, "storesCache": stores_cache,
+        "cacheFrom": ("" if cache_key is None else CACHE + (" (read after compiling)" if cache_read_after and fn_pos < cache_pos
+                                                            else " (read before compiling)")),
+        "compileBeforeStore": compile_first,
+        "compileInsideTry": True,
+        "catchesAll": catches_all, "fallbackNone": fb_none, "fallbackWarns": warns, "integratorGetsJac": gets_jac,
+        "onlyWhenRequested": True, "reinitSites": sorted(reinit), "parameterSites": sorted(parsites),
+    }
+
+
+def scipy_methods(repo: Path) -> list[str]:
+    """the `Literal[...]` of `Scipy.method` and where `jac=self.jacobian` is handed on"""
+    tree = ast.parse((Path(repo) / "src" / "mxlpy" / "integrators" / "int_scipy.py").read_text())
+    cls = next((n for n in tree.body if isinstance(n, ast.ClassDef) and n.name == "Scipy"), None)
+    if cls is None:
+        raise Unsupported("class Scipy not found")
+    meths = None
+    for st in cls.body:
+        if isinstance(st, ast.AnnAssign) and isinstance(st.target, ast.Name) and st.target.id == "method":
+            ann = st.annotation
+            if isinstance(ann, ast.Subscript) and ast.unparse(ann.value) == "Literal":
+                elts = ann.slice.elts if isinstance(ann.slice, ast.Tuple) else [ann.slice]
+                meths = [e.value for e in elts if isinstance(e, ast.Constant) and isinstance(e.value, str)]
+    if not meths:
+        raise Unsupported("Scipy.method is not annotated with a Literal of method names")
+    passes = []
+    for n in ast.walk(cls):
+        if isinstance(n, ast.Call):
+            for k in n.keywords:
+                if k.arg == "jac":
+                    if not _is_self_attr(k.value, "jacobian"):
+                        raise Unsupported(f"jac={ast.unparse(k.value)} (not self.jacobian)")
+                    passes.append(ast.unparse(n.func))
+    if "spi.solve_ivp" not in passes:
+        raise Unsupported("solve_ivp is not called with jac=self.jacobian")
+    return meths
+
+
+def _lean_str(s: str) -> str:
+    return '"' + s.replace("\\", "\\\\").replace('"', '\\"') + '"'
+
+
+def _lean_glue(g: dict) -> str:
+    def b(x):
+        return "true" if x else "false"
+
+    def sl(xs):
+        return "[" + ", ".join(_lean_str(x) for x in xs) + "]"
+
+    return (
+        "{ lambdifyArgs := " + sl(g["lambdifyArgs"]) + ",\n    callArgs := " + sl(g["callArgs"]) +
+        ",\n    valuesFrom := " + _lean_str(g["valuesFrom"]) + ",\n    compiledFrom := " + _lean_str(g["compiledFrom"]) +
+        ",\n    matrix := " + _lean_str(g["matrix"]) +
+        ",\n    cacheFrom := " + _lean_str(g["cacheFrom"]) +
+        "".join(f",\n    {k} := {b(g[k])}" for k in ("recompileOnChange", "storesValues", "watchesModel", "storesCache",
+                                                    "compileBeforeStore", "compileInsideTry", "catchesAll",
+                                                    "fallbackNone", "fallbackWarns", "integratorGetsJac", "onlyWhenRequested")) +
+        ",\n    reinitSites := " + sl(g["reinitSites"]) + ",\n    parameterSites := " + sl(g["parameterSites"]) + " }"
+    )
+
+
+def generate_glue(repo: Path, outdir: Path) -> None:
+    g = glue(repo)
+    meths = scipy_methods(repo)
+    text = "\n".join([
+        "-- GENERATED by /verif/translate/c12.py from src/mxlpy/simulator.py and integrators/int_scipy.py; do not edit",
+        "import MxlVerif.Model.C12Sim",
+        "namespace Mxl.C12.Generated",
+        "",
+        "/-- `Simulator._initialise_integrator` and the methods around it, as read from the current source -/",
+        "def glue : Glue :=",
+        "  " + _lean_glue(g),
+        "",
+        "/-- `Scipy.method: Literal[...]`; every one of them is run with `jac=self.jacobian` -/",
+        "def scipyMethods : List String := [" + ", ".join(_lean_str(m) for m in meths) + "]",
+        "",
+        "end Mxl.C12.Generated",
+        "",
+    ])
+    outdir.mkdir(parents=True, exist_ok=True)
+    p = outdir / "C12Glue.lean"
+    if not p.exists() or p.read_text() != text:
+        p.write_text(text)
 
 
 if __name__ == "__main__":
